@@ -10,7 +10,11 @@ import (
 	sdk "github.com/cosmos/cosmos-sdk/types"
 	"pgregory.net/rapid"
 
+	ophostkeeper "github.com/initia-labs/OPinit/x/ophost/keeper"
+	ophosttypes "github.com/initia-labs/OPinit/x/ophost/types"
+
 	"verifharness/evid"
+	"verifharness/henv"
 )
 
 var c01Weights = []weighted{{"deposit", 8}, {"advance", 5}, {"claim", 8}, {"propose", 6}, {"create", 3}, {"send", 2}, {"delete", 2}, {"role", 2}}
@@ -209,4 +213,44 @@ func errKind(err error) string {
 		s = s[:40]
 	}
 	return s
+}
+
+// TestC01DepositToMissingBridge: a deposit that names a bridge id without a bridge either fails
+// without effect or, if it reports success, has moved its coins (bounded: ids next, next+1, 77, 0).
+func TestC01DepositToMissingBridge(t *testing.T) {
+	rec := evid.For("C01")
+	for _, nBridges := range []int{0, 1, 3} {
+		for _, off := range []uint64{0, 1, 76} {
+			e := henv.NewL1(henv.L1Options{NoHook: true})
+			u := henv.MakeUser("c01-missing")
+			e.Fund(u.Addr, coinOf("uinit", 1000))
+			for i := 0; i < nBridges; i++ {
+				if r := e.Deliver(ophosttypes.NewMsgCreateBridge(u.Str, henv.DefaultBridgeConfig(u.Str, u.Str, time.Minute))); !r.OK() {
+					t.Fatal(r.Err)
+				}
+			}
+			id := uint64(nBridges) + 1 + off
+			before, digest := e.Balance(u.Addr, "uinit"), e.Digest()
+			r := e.Deliver(ophosttypes.NewMsgInitiateTokenDeposit(u.Str, id, u.Str, coinOf("uinit", 250), nil))
+			moved := before.Sub(e.Balance(u.Addr, "uinit"))
+			held := e.Balance(escrowAddr(id), "uinit")
+			caseID := fmt.Sprintf("bridges=%d/id=%d", nBridges, id)
+			if r.OK() && (!moved.Equal(math.NewInt(250)) || !held.Equal(math.NewInt(250))) {
+				caseFail(t, caseID, "C01 violated: a deposit of 250uinit into bridge id %d (no such bridge) reported success; the sender paid %s and the address derived from the id holds %s", id, moved, held)
+			}
+			if !r.OK() && e.Digest() != digest {
+				caseFail(t, caseID, "C01 violated: a refused deposit into bridge id %d changed state", id)
+			}
+			// the same request handed to the message server directly, as another module would call it
+			// (no router, no transaction wrapper): "no error" must mean that the coins are in escrow
+			cctx, _ := e.Ctx.CacheContext()
+			_, err := ophostkeeper.NewMsgServerImpl(*e.K).InitiateTokenDeposit(cctx, ophosttypes.NewMsgInitiateTokenDeposit(u.Str, id, u.Str, coinOf("uinit", 250), nil))
+			if got := e.BK.GetBalance(cctx, escrowAddr(id), "uinit").Amount.Sub(held); err == nil && !got.Equal(math.NewInt(250)) {
+				caseFail(t, caseID, "C01 violated: the message server accepted (no error) a deposit of 250uinit into bridge id %d (no such bridge); the address derived from the id received %s", id, got)
+			}
+			c := rec.Begin()
+			c.Class("deposit-to-missing-bridge-id")
+			c.Done()
+		}
+	}
 }
